@@ -447,12 +447,16 @@ def run_C14(tier, seed):
         res.count("dict-round-trip")
         inst2 = JobShopInstance(copy.deepcopy(inst.jobs), name="nm", color="red", n=3)
         for via_json in (False, True):
-            dct = inst2.to_dict()
-            if via_json:
-                dct = json.loads(json.dumps(dct))
-            back = JobShopInstance.from_matrices(**dct)
-            if deep_instance(back) != deep_instance(inst2):
-                res.breach("dict-round-trip", f"{deep_instance(back)} != {deep_instance(inst2)}", jobs=jobs)
+            try:
+                dct = inst2.to_dict()
+                if via_json:
+                    dct = json.loads(json.dumps(dct))
+                back = JobShopInstance.from_matrices(**dct)
+                if deep_instance(back) != deep_instance(inst2):
+                    res.breach("dict-round-trip", f"{deep_instance(back)} != {deep_instance(inst2)}", jobs=jobs)
+            except Exception as e:  # noqa: BLE001
+                res.breach("dict-round-trip", f"to_dict/from_matrices raised {type(e).__name__}: {str(e)[:100]}",
+                           jobs=jobs)
         # Taillard text round trip (non-flexible)
         if not flexible:
             res.count("taillard-round-trip")
@@ -701,10 +705,14 @@ def run_C19(tier, seed):
                                f"(machines per operation {cfg['machines_per_operation']})", config=cfg, seed=sd + 1)
                     break
         # reproducibility
-        res.count("same-seed-same-sequence")
-        a = [instance_data(i) for i in GeneralInstanceGenerator(seed=sd, iteration_limit=4, **cfg)]
-        b = [instance_data(i) for i in GeneralInstanceGenerator(seed=sd, iteration_limit=4, **cfg)]
-        if a != b:
-            res.breach("same-seed-same-sequence", "two generators with the same seed differ", config=cfg, seed=sd)
+        for sd2 in (sd, 0, 1):
+            res.count("same-seed-same-sequence")
+            random.seed(rng.randint(0, 10 ** 9))   # whatever the global RNG did before must not matter
+            a = [instance_data(i) for i in GeneralInstanceGenerator(seed=sd2, iteration_limit=4, **cfg)]
+            random.seed(rng.randint(0, 10 ** 9))
+            b = [instance_data(i) for i in GeneralInstanceGenerator(seed=sd2, iteration_limit=4, **cfg)]
+            if a != b:
+                res.breach("same-seed-same-sequence", f"two generators with seed {sd2} and the same parameters differ",
+                           config=cfg, seed=sd2)
         res.sample({"config": cfg, "first": instance_data(insts[0]) if insts else None})
     return res
